@@ -61,6 +61,25 @@ def r2_chain_per_handler(ctx):
 PIPE = A + 'processing_pipeline::pipeline::'
 
 
+FIELDS3 = {'pre_processing_ids', 'middle_id', 'post_processing_ids'}
+
+
+def _appends(b, defs):
+    """appends to a vector in `b`, in block order: (block, method, stage fields the appended value reads, reversed?)"""
+    from ..govern import field_reads_of_slice, field_reads_of_place
+    out = []
+    for bb, t in sorted(b.calls(), key=lambda x: x[0]):
+        m = (callee(t) or '').split('::')[-1]
+        if m in ('extend', 'extend_from_slice', 'push', 'append') and t['aty'] and 'Vec<' in t['aty'][0] and len(t['args']) > 1:
+            pl = op_place(t['args'][1])
+            sl, _ = backward_slice(b, pl['l'], defs) if pl else ([], set())
+            f = sorted(field_reads_of_slice(sl, FIELDS3) | field_reads_of_place(pl or {}, FIELDS3))
+            rev = 'core::iter::traits::iterator::Iterator::rev' in {c for c, _, _ in slice_calls(sl)}
+            if f:
+                out.append((bb, m, f, rev))
+    return out
+
+
 def r3_stage_assembly(ctx):
     from ..govern import field_reads_of_slice, field_reads_of_place
     from ..tables import enum_switches, switch_arms, guard_context
@@ -81,19 +100,20 @@ def r3_stage_assembly(ctx):
                 row.append(sorted(field_reads_of_slice(sl, {'pre_processing_ids', 'middle_id', 'post_processing_ids'})))
             got.append(row)
         want = [[['pre_processing_ids'], ['middle_id']], [['middle_id', 'pre_processing_ids'], ['post_processing_ids']]]
-        ctx.ob('C05.R3', 'stage-order|pre-middle-post', got == want, so.loc(), 'chain operands: %s (documented: pre ++ [middle] ++ post)' % got)
+        if chs:
+            ctx.ob('C05.R3', 'stage-order|pre-middle-post', got == want, so.loc(), 'chain operands: %s (documented: pre ++ [middle] ++ post)' % got)
+        else:
+            # the same sequence written as appends to one vector: extend(pre); push(middle); extend(post), each once, in that order
+            ev = _appends(so, defs)
+            seq = [f for _, _, f, _ in ev]
+            straight = all(bb not in so.reachable(so.succ(bb)) for bb, _, _, _ in ev)
+            ok = seq == [['pre_processing_ids'], ['middle_id'], ['post_processing_ids']] and straight and all(so.dominates(ev[i][0], ev[i + 1][0]) for i in range(len(ev) - 1)) \
+                and not any(r for _, _, _, r in ev)
+            ctx.ob('C05.R3', 'stage-order|pre-middle-post', ok, so.loc(), 'appends to the result, in order: %s (documented: pre ++ [middle] ++ post)' % [(m, f) for _, m, f, _ in ev])
     po = ctx.need('C05.R3', 'PipelineIds::invocation_order', ctx.fb.body('pavexc', PIPE + 'PipelineIds::invocation_order'))
     if po is not None:
         defs = Defs(po)
-        exts = []
-        for bb, t in po.calls():
-            m = (callee(t) or '').split('::')[-1]
-            if m in ('extend', 'push') and 'Vec<' in t['aty'][0]:
-                pl = op_place(t['args'][1])
-                sl, _ = backward_slice(po, pl['l'], defs) if pl else ([], set())
-                f = sorted(field_reads_of_slice(sl, {'pre_processing_ids', 'middle_id', 'post_processing_ids'}) | field_reads_of_place(pl or {}, {'pre_processing_ids', 'middle_id', 'post_processing_ids'}))
-                rev = 'core::iter::traits::iterator::Iterator::rev' in {c for c, _, _ in slice_calls(sl)}
-                exts.append((bb, m, f, rev))
+        exts = _appends(po, defs)
         pre = [e for e in exts if e[2] == ['pre_processing_ids']]
         mid = [e for e in exts if e[2] == ['middle_id']]
         post = [e for e in exts if e[2] == ['post_processing_ids']]
@@ -103,13 +123,20 @@ def r3_stage_assembly(ctx):
                'extend(pre) < push(middle) in the forward loop, extend(post) in a loop over stages.rev(): %s' % [(m, f, 'rev' if r else 'fwd') for _, m, f, r in exts])
     new = ctx.need('C05.R3', 'RequestHandlerPipeline::new', ctx.fb.body('pavexc', PIPE + 'RequestHandlerPipeline::new'))
     if new is not None:
+        # the grouping loop sits in `new` or in a private helper that only `new` (and its helpers) call
+        from .compiler_common import family_bodies
+        is_stage = lambda st: st['rv']['k'] == 'agg' and strip_generics(st['rv'].get('adt', '')) == PIPE + 'StageIds'
+        holders = [x for x in family_bodies(ctx, 'pavexc', [PIPE + 'RequestHandlerPipeline::new']) if not x.is_promoted and any(is_stage(st) for _, _, st in x.all_assigns())]
+        new = holders[0] if len(holders) == 1 else new
         defs = Defs(new)
         HC = A + 'components::hydrated::HydratedComponent'
-        aggs = [(bb, st) for bb, j, st in new.all_assigns() if st['rv']['k'] == 'agg' and strip_generics(st['rv'].get('adt', '')) == PIPE + 'StageIds']
+        aggs = [(bb, st) for bb, j, st in new.all_assigns() if is_stage(st)]
         ctx.need('C05.R3', 'StageIds construction in the grouping loop', aggs)
         for bb, st in aggs:
             g = guard_context(new, bb)
             hc = next((v for k, v in g.items() if k.endswith('HydratedComponent')), None)
+            if not ctx.need('C05.R3', 'match on HydratedComponent around the StageIds construction', hc):
+                break
             takes = {}
             for fname, o in zip(st['rv']['fields'], st['rv']['ops']):
                 pl = op_place(o)
